@@ -562,6 +562,7 @@ fn msg_att_uid(i: &[u8]) -> IResult<&[u8], AttributeValue> {
 fn msg_att(i: &[u8]) -> IResult<&[u8], AttributeValue> {
     alt((
         msg_att_body_section,
+        msg_att_body,
         msg_att_body_structure,
         msg_att_envelope,
         msg_att_internal_date,
